@@ -167,3 +167,8 @@ pub fn ints_in(s: &str) -> Vec<u64> {
     }
     out
 }
+
+/// Step bound for iterators, linear in the input length (a NACK word of 4 bytes yields up to 17 entries).
+pub fn step_cap(len: usize) -> usize {
+    5 * len + 16
+}
